@@ -58,8 +58,14 @@ def cases(ctx):
             k = max(1, min(k, 12))
             scale = 4 if isf else 1
             w = [rng.choice([0, 1, 2, 3]) if uns else rng.randint(-4, 6) for _ in range(k)]
-            yield {"kind": "conv1d", "dtype": dtype, "shape": shape, "f": f, "w": w, "axis": axis, "mode": mode,
-                   "layout": rng.choice(LAYOUTS), "scale": scale, "wstrided": rng.random() < 0.25}
+            c = {"kind": "conv1d", "dtype": dtype, "shape": shape, "f": f, "w": w, "axis": axis, "mode": mode,
+                 "layout": rng.choice(LAYOUTS), "scale": scale, "wstrided": rng.random() < 0.25}
+            if not isf and rng.random() < 0.3:
+                # fractional weights on an integer image: the weights are converted to the image's dtype (documented for
+                # convolve), on the contiguous fast path exactly as on the generic path
+                c["wfrac"] = 4
+                c["w"] = [rng.randint(0, 14) if uns else rng.randint(-14, 14) for _ in range(k)]
+            yield c
         else:
             sh = [rng.choice([5, 8, 13]) for _ in range(rng.choice([1, 2, 2, 3]))]
             # k/2 + 0.125: 4*sigma + 0.5 is an integer there, so the half-width int(4*sigma + 0.5) differs from round-half-even
@@ -126,6 +132,9 @@ def run_case(ctx, case):
             axis = case["axis"]
             w_int = np.array(case["w"], dtype=np.int64)
             w = (w_int / scale) if scale != 1 else w_int.astype(np.float64)
+            if case.get("wfrac"):
+                w = w_int / float(case["wfrac"])
+                w_int = w.astype(np.dtype(dtype)).astype(np.int64)       # the conversion convolve documents (towards zero)
             if case.get("wstrided"):
                 big = np.full(2 * len(w), 77.0)
                 big[::2] = w
@@ -160,11 +169,11 @@ def run_case(ctx, case):
             return Result(False, True, {"why": "implementation != model", "want_model": want, "got": gl})
         # the native 1-D loops against their executable model (row_fast), with garbage in the output buffer
         if kind == "conv1d" and f0.ndim == 1 and len(case["w"]) < f0.shape[0]:
-            rf = ctx.model.ints("row_fast %d %s %s %s" % (M2I[mode], enc_list(case["f"]), enc_list(case["w"]),
+            rf = ctx.model.ints("row_fast %d %s %s %s" % (M2I[mode], enc_list(case["f"]), enc_list([int(v) for v in w_int.reshape(-1)]),
                                                           enc_list([-99] * len(case["f"]))))[0]
             if rf != spec:
                 return Result(False, True, {"why": "row_fast model != row spec", "row_fast": rf, "spec": spec})
-        nz = sum(1 for v in case["w"] if v)
+        nz = sum(1 for v in w_int.reshape(-1) if v)
         return Result(True, nz >= 2 and len(set(case["f"])) > 1, None, cls)
     if kind == "conv32":
         fi = np.array(case["f"], dtype=np.int64).reshape(case["shape"])
